@@ -873,7 +873,13 @@ class SecureHomeKitConnection(HomeKitConnection):
         logger.debug("Secure connection to %s:%s established", self.connected_host, self.port)
 
         if self.owner:
-            await self.owner.connection_made(True)
+            try:
+                await self.owner.connection_made(True)
+            except BaseException:
+                # The reconnect loop treats this as a failed attempt and will
+                # connect again, so do not leave this connection behind.
+                self._drop_transport()
+                raise
 
         if not self.is_connected:
             # The connection was lost while the owner was re-subscribing. The
